@@ -653,6 +653,17 @@ theorem code_loop_ends_only_by_quit (E : Mimic.Py.Env S) (cp : S → Nat) (pc : 
   ⟨loop_ends_only E cp pc coldef parse app ur fls fcd other err af c ps, loop_quit_ends E cp pc coldef parse app ur fls fcd other err af c ps, fun hno => loop_quit_iff E cp pc coldef parse app ur fls fcd other err af hno c ps⟩
 
 open MimicProofs.CommandLoop in
+/-- **COM_QUIT is one of the no-reply commands**: its iteration writes nothing ("or nothing for the no-reply commands"), changes
+    nothing but the sequence reset and the executing flag, and ends the loop — whatever bytes follow the command byte -/
+theorem code_quit_is_not_answered (E : Mimic.Py.Env S) (cp : S → Nat) (pc : Nat → Mimic.Py.Bytes) (coldef : Nat → Nat → Mimic.Py.Bytes)
+    (parse : Connection S → Mimic.Py.Bytes → Option (ComStmtExecute S)) (app : S → Option (ResultSet S))
+    (ur : S → Bool) (fls : Mimic.Extracted.ParsersCode.ComFieldList S → S) (fcd : Nat → S → Mimic.Py.Bytes → Mimic.Py.Bytes)
+    (other : Nat → Connection S → Mimic.Py.Bytes → Except (Connection S) (Connection S)) (err : Connection S → Mimic.Py.Bytes) (af : Nat → Connection S → Mimic.Py.Bytes → Option (Connection S))
+    (c : Connection S) (rest : Mimic.Py.Bytes) :
+    command_step E cp pc coldef parse app ur fls fcd other err af c (1 :: rest) = ({ c with _executing := false, out := c.out ++ [Ev.reset_seq] }, false) :=
+  quit_exchange E cp pc coldef parse app ur fls fcd other err af c rest
+
+open MimicProofs.CommandLoop in
 /-- **nothing behind a COM_QUIT is looked at**: packets pipelined after it change neither the state nor the wire -/
 theorem code_loop_ignores_after_quit (E : Mimic.Py.Env S) (cp : S → Nat) (pc : Nat → Mimic.Py.Bytes) (coldef : Nat → Nat → Mimic.Py.Bytes)
     (parse : Connection S → Mimic.Py.Bytes → Option (ComStmtExecute S)) (app : S → Option (ResultSet S))
